@@ -86,6 +86,36 @@ def conversion(ctx, groups, int_order, nfun):
     ctx.sample(dict(stream=s.label, first_lines=s.lines[:4]))
 
 
+def mdd_table_problems(d, held_counts, after_gc=False):
+    """independent check of an MDD manager: counts = stored edges (with multiplicity) +
+    external references; after a collection exactly the referenced closure remains"""
+    bad = []
+    indeg = {u: 0 for u in d._succ}
+    for u, t in d._succ.items():
+        for x in t[1:]:
+            if x is not None:
+                if abs(x) not in d._succ:
+                    bad.append(f'node {u} has a dangling successor {x}')
+                else:
+                    indeg[abs(x)] += 1
+    for u in d._succ:
+        e = held_counts.get(u, 0)       # (the MDD terminal starts with count 0)
+        if d._ref.get(u) != indeg[u] + e:
+            bad.append(f'node {u}: count {d._ref.get(u)} != stored edges {indeg[u]} + external {e}')
+    if after_gc:
+        keep = {1}
+        stack = [u for u, c in held_counts.items() if c > 0]
+        while stack:
+            u = stack.pop()
+            if u in keep or u not in d._succ:
+                continue
+            keep.add(u)
+            stack += [abs(x) for x in d._succ[u][1:] if x is not None]
+        if set(d._succ) != keep:
+            bad.append(f'after collection nodes {sorted(d._succ)}, referenced closure {sorted(keep)}')
+    return bad
+
+
 def mdd_ops(ctx, lens, steps):
     """random MDD histories: functions by value tables"""
     rng = ctx.rng
@@ -187,6 +217,13 @@ def mdd_ops(ctx, lens, steps):
                 ctx.violation('C15:mdd-gc', f'after collection nodes {sorted(d._succ)}, referenced closure {sorted(keep)}', case)
                 return
         ctx.case(('mddop', tuple(lens), id(s), step), True)
+        hc = {}
+        for u in held:
+            hc[abs(u)] = hc.get(abs(u), 0) + 1
+        bad = mdd_table_problems(d, hc, after_gc=s.lines[-1].split()[1:2] == ['gc'])
+        if bad:
+            ctx.violation('C15:mdd-gc', f'{bad[:3]}', case)
+            return
         for u, tab in held.items():
             if abs(u) not in d._succ or table(u) != tab:
                 ctx.violation('C15:mdd-held-changed', f'held MDD reference {u} changed', case)
